@@ -356,4 +356,60 @@ def step (s : IOState) : List String → IOState × String
       match r with | .fresh => "f" | .byRef => "r" | .resync n => s!"s{n}"))
   | _ => (s, "bad-op")
 
+/-! ### module-level clone (`EvolvableModule.clone`, agilerl/modules/base.py)
+
+  What `module.clone()` — the operation the agent-level table above calls "fresh" for networks — does to each group
+  of mutable objects reachable from ONE evolvable module.  `Proofs/ModCloneGenEq.lean` proves the rule generated
+  from the source text (`Gen/ModCloneGen.lean`, harness/py2lean_modclone.py) equal to `moduleCloneRule`. -/
+
+/-- the groups of mutable objects reachable from an evolvable module -/
+inductive ModPart
+  | params                 -- parameter and buffer tensors (their storages)
+  | initArg (depth : Nat)  -- containers among the recorded constructor arguments (`init_dict` values): depth 0 = the
+                           -- list / dict the module holds as an attribute (`hidden_size`, `encoder_config`),
+                           -- depth 1 = a list / dict inside it (`encoder_config["hidden_size"]`), …
+  | methodLists            -- `_layer_mutation_methods`, `_node_mutation_methods`
+deriving Repr, DecidableEq
+
+/-- how the constructor-argument dict is copied before `self.__class__(**…)` -/
+inductive InitCopy
+  | deep        -- `copy.deepcopy(self.get_init_dict())`
+  | shallow     -- `dict(self.init_dict)` / no copy: `get_init_dict()` is a new dict of the module's own objects
+deriving Repr, DecidableEq
+
+def initArgRule : InitCopy → Nat → Rule
+  | .deep, _ => .fresh
+  | .shallow, _ => .byRef
+
+def moduleCloneRuleOf (c : InitCopy) (listsShared : Bool) : ModPart → Rule
+  | .params => .fresh
+  | .initArg d => initArgRule c d
+  | .methodLists => if listsShared then .byRef else .fresh
+
+/-- `EvolvableModule.clone` as the code is: parameters / buffers, the recorded constructor arguments at every
+    nesting depth and the two lists of mutation-method names (`list(self._layer_mutation_methods)`) are fresh.
+    (`moduleCloneRuleOf .deep true` = the code as found, which handed the two lists over by reference.) -/
+def moduleCloneRule : ModPart → Rule := moduleCloneRuleOf .deep false
+
+/-- every part of the clone holds the original's values -/
+def moduleCloneFaithful : ModPart → Bool := fun _ => true
+
+/-- `EvolvableDistribution.clone`: the wrapped network is cloned (its parts follow `moduleCloneRule`), the plain
+    constructor arguments (action space, numbers, device) are handed over as they are, the wrapper's own method
+    lists are rebuilt by the constructor -/
+def distCloneRule : ModPart → Rule
+  | .params => .fresh
+  | .initArg _ => .byRef
+  | .methodLists => .fresh
+
+/-- a module whose recorded arguments nest `D` deep, as a list of attribute groups -/
+def modParts (D : Nat) : List ModPart := .params :: ((List.range D).map .initArg ++ [.methodLists])
+
+def moduleRules (D : Nat) : List Rule := (modParts D).map moduleCloneRule
+
+def shallowModuleRules (D : Nat) : List Rule := (modParts D).map (moduleCloneRuleOf .shallow false)
+
+/-- the code as found: method-name lists assigned by reference -/
+def sharedListsModuleRules (D : Nat) : List Rule := (modParts D).map (moduleCloneRuleOf .deep true)
+
 end Heap
